@@ -247,6 +247,90 @@ func checkUseAfterRelease(w *World, r *Report) {
 			}
 		})
 	}
+	// double release: two release sites (deferred or not) of one object on one path
+	nPairs := 0
+	for _, fn := range w.pkgFuncs() {
+		type rel struct {
+			in   ssa.Instruction
+			vals map[ssa.Value]bool
+			how  string
+		}
+		var rels []rel
+		instrsOf(fn, func(in ssa.Instruction) {
+			c, ok := in.(ssa.CallInstruction)
+			if !ok {
+				return
+			}
+			if _, isGo := in.(*ssa.Go); isGo {
+				return
+			}
+			v, how := rf.releasedArg(c)
+			if v == nil {
+				return
+			}
+			if cst, isC := v.(*ssa.Const); isC && cst.Value == nil {
+				return
+			}
+			vals := map[ssa.Value]bool{}
+			var add func(x ssa.Value, depth int)
+			add = func(x ssa.Value, depth int) {
+				if depth > 6 || vals[x] {
+					return
+				}
+				if ph, ok := x.(*ssa.Phi); ok {
+					vals[x] = true
+					for _, e := range ph.Edges {
+						add(e, depth+1)
+					}
+					return
+				}
+				for _, rt := range rootsOf(x) {
+					if _, isC := rt.(*ssa.Const); isC {
+						continue
+					}
+					if ph, ok := rt.(*ssa.Phi); ok {
+						add(ph, depth+1)
+						continue
+					}
+					vals[rt] = true
+				}
+			}
+			add(v, 0)
+			rels = append(rels, rel{in, vals, how})
+		})
+		for i := 0; i < len(rels); i++ {
+			for j := i + 1; j < len(rels); j++ {
+				a, b := rels[i], rels[j]
+				shared := false
+				for x := range a.vals {
+					if _, isPhi := x.(*ssa.Phi); isPhi {
+						continue
+					}
+					if b.vals[x] {
+						shared = true
+					}
+				}
+				if !shared {
+					continue
+				}
+				// can both execute on one path?
+				both := false
+				if a.in.Block() == b.in.Block() {
+					both = true
+				} else if blockReaches(a.in.Block(), b.in.Block()) || blockReaches(b.in.Block(), a.in.Block()) {
+					both = true
+				}
+				if !both {
+					continue
+				}
+				nPairs++
+				r.bad("R01.5", ssaName(fn), "an object is released at most once on a path", w.posOf(b.in.Pos()), fmt.Sprintf("the object released here (%s) is also released at %s (%s) on the same path: the pool then holds it twice and hands it to two owners at once (contexts that overwrite each other, a context that becomes its own parent)", b.how, w.posOf(a.in.Pos()), a.how))
+			}
+		}
+	}
+	if nPairs == 0 {
+		r.ok("R01.5", "(package)", "an object is released at most once on a path", "-", "no two release sites of one object lie on a common path", true)
+	}
 	r.floor("release sites (Pool.Put and releasing calls)", nSites, 20)
 	var names []string
 	for fn := range rf.releases {
